@@ -97,7 +97,7 @@ def run(ck):
         ck.correspondence_broken("scratch-module", err)
         return ck.finish()
 
-    n, nbig, ntyped = {"quick": (220, 6, 40), "thorough": (4000, 60, 400)}[ck.tier]
+    n, nbig, ntyped = {"quick": (170, 4, 40), "thorough": (4000, 60, 400)}[ck.tier]
     jobs = [("random", os.path.join(ck.work, "ctl.jsonl"), {"VERIF_N": str(n), "VERIF_NBIG": str(nbig)}),
             ("typed", os.path.join(ck.work, "typed.jsonl"), {"VERIF_N": str(ntyped)}),
             ("witness", os.path.join(ck.work, "witness.jsonl"), {})]
